@@ -28,7 +28,7 @@ def run(ctx):
     codec.report_gen_failures(camp, ctx, PROP)
     rng = ctx.rng
     # 1. serialization of arbitrary objects (invalid counts / tags, out-of-range storage values) into exactly sized buffers of every size class
-    vcases = codec.value_cases(camp, rng, 2, ctx.pick(4, 10))
+    vcases = codec.value_cases(camp, rng, 1, ctx.pick(3, 10), n_boundary=ctx.pick(3, 8))
     sizes = {}
 
     def buf_of(c, need):
